@@ -82,7 +82,7 @@ def stage_enum(ctx):
 
 @st.composite
 def cases(draw):
-    base = draw(st.one_of(gens.antichains(), gens.antichains(), gens.spines()))
+    base = draw(st.one_of(gens.antichains(), gens.antichains(), gens.spines(), gens.near_groups()))
     o1 = draw(gens.orderings(st.just(base)))
     o2 = draw(gens.orderings(st.just(base)))
     return {"cells": [hex(c) for c in base], "orderings": [[hex(c) for c in o1], [hex(c) for c in o2]]}
